@@ -255,6 +255,10 @@ class Report:
         for kid, (k, n) in sorted(hit.items()):
             print("KNOWN-FINDING: property=%s id=%s %s (%d cases; %s)" % (self.prop, kid, k["what"], n, k["where"]))
         os.makedirs(os.path.join(VERIF, "replays"), exist_ok=True)
+        os.makedirs(os.path.join(VERIF, "build", "work"), exist_ok=True)
+        with open(os.path.join(VERIF, "build", "work", "%s-%s-violations.txt" % (self.prop, self.tier)), "w") as vf:
+            for f in viol:
+                vf.write("%s\t%s\t%s\n" % (f["kind"], f["desc"], f["msg"]))
         shown = 0
         for i, f in enumerate(viol):
             if shown >= 10:
